@@ -727,7 +727,7 @@ def models(draw, max_templates=3, sizes='normal', for_xta=False, need_clean=Fals
         t = Template(fresh('T'))
         tenv = Env(g)
         # parameters
-        for _ in range(draw(st.integers(0, 3))):
+        for _ in range(draw(st.integers(0, 3)) if not (need_clean and ti == 0) else 0):
             pk = draw(st.sampled_from(['int', 'cint', 'refint', 'bool', 'crange']))
             pn = fresh('p')
             pid = 'T(%s).p/%s' % (t.name, pn)
